@@ -1624,7 +1624,7 @@ def ra_post(c, p):
 
 
 Q(name="e2_retry_acceptance_slice", props=["C14", "C04"], func=r"connection/mod\.rs:\d+:1: \d+:16>::process_decrypted_packet$",
-  src="connection/mod.rs", within=r"^    fn process_decrypted_packet\(", start_line=r"if self\.total_authed_packets >", end_line=r"let client_hello = state\.client_hello\.take\(\)\.unwrap\(\);",
+  src="connection/mod.rs", within=r"^    fn process_decrypted_packet\(", start_line=r"^                if self\.side\.is_server\(\) \{$", end_line=r"let client_hello = state\.client_hello\.take\(\)\.unwrap\(\);",
   pure=[r"is_valid_retry$", r"CidQueue::active$", r"BytesMut::len$", r"Bytes::len$"], check_stop=True, allowed_panics=r".",
   functions=["Connection::process_decrypted_packet (slice: the Retry acceptance test)"], pre=lambda c: "true", post=ra_post,
   bounds="the acceptance test of the Retry arm, from an arbitrary state: the code after it is reached only if no more than one packet has been authenticated so far and Session::is_valid_retry - asked about the currently active remote CID - said yes; otherwise the packet is dropped without touching CIDs or packet spaces; located through the source text",
